@@ -9,7 +9,7 @@ Init == l = 1
 Eval(e) ==
   CASE e.ev = "read" -> ReadOne(e.text, e.ro)
     [] e.ev = "readall" -> ReadAll(e.text, e.ro)
-    [] e.ev = "print" -> [text |-> Print(e.v, e.po)]
+    [] e.ev = "print" -> [text |-> PrintDatum(e.v, e.po)]
     [] OTHER -> [t |-> "?"]
 Next == /\ l <= Len(Rec)
         /\ PrintT(<<"NOTE", l, ToJson(Eval(Rec[l]))>>)
